@@ -20,13 +20,16 @@ EXTENDS Naturals, Sequences, FiniteSets
 
 \* "ca" : a combining acute accent (U+0301, two UTF-8 octets) - after a letter it forms a
 \* name in decomposed (NFD) form, which is a different name than the precomposed one
-Chars == {"x", " ", "%", "#", "?", ";", "+", "e'", "2", "4", "0", "ca"}
+\* "mj" : the two Latin-1 Supplement characters U+00C3 U+00A9 ("mojibake" of e'): four UTF-8 octets
+\*        C3 83 C2 A9 which, decoded once more as if they were Latin-1, would read as e' itself
+Chars == {"x", " ", "%", "#", "?", ";", "+", "e'", "2", "4", "0", "ca", "mj"}
 Unreserved(c) == c \in {"x", "2", "4", "0"}
 
 \* octets of a character (as hex pairs) for the reserved ones
 Octets(c) ==
     CASE c = " " -> <<"20">> [] c = "%" -> <<"25">> [] c = "#" -> <<"23">> [] c = "?" -> <<"3F">>
-      [] c = ";" -> <<"3B">> [] c = "+" -> <<"2B">> [] c = "e'" -> <<"C3", "A9">> [] c = "ca" -> <<"CC", "81">> [] OTHER -> <<>>
+      [] c = ";" -> <<"3B">> [] c = "+" -> <<"2B">> [] c = "e'" -> <<"C3", "A9">> [] c = "ca" -> <<"CC", "81">>
+      [] c = "mj" -> <<"C3", "83", "C2", "A9">> [] OTHER -> <<>>
 
 \* an emitted href is a sequence of tokens: a literal unreserved character or an escape <<"%", hex>>
 RECURSIVE Emit(_)
@@ -44,6 +47,8 @@ RECURSIVE Deref(_)
 Deref(h) ==
     IF h = <<>> THEN <<>>
     ELSE IF "lit" \in DOMAIN Head(h) THEN <<Head(h).lit>> \o Deref(Tail(h))
+    ELSE IF Head(h).esc = "C3" /\ Len(h) >= 4 /\ "esc" \in DOMAIN h[2] /\ h[2].esc = "83"
+         THEN <<"mj">> \o Deref(SubSeq(h, 5, Len(h)))
     ELSE IF Head(h).esc = "C3" THEN <<"e'">> \o Deref(Tail(Tail(h)))
     ELSE IF Head(h).esc = "CC" THEN <<"ca">> \o Deref(Tail(Tail(h)))
     ELSE <<CharOf(<<Head(h).esc>>)>> \o Deref(Tail(h))
